@@ -1,5 +1,6 @@
 # Overrides the C09 entry of bin/props.py (props.d entries are merged after PROPS): same harness, rule/assumptions brought up to date
-# with the receiver-list families (requests whose receiver lists mix valid, self, repeated and out-of-range indices in every order).
+# with the receiver-list families (requests whose receiver lists mix valid, self, repeated and out-of-range indices in every order)
+# and the trigger-position family (the source's primaries at every sample of the stream, four trigger kinds).
 ENTRY = {
     "C09": {
         "pkg": ".", "hdir": "dastard", "harness": DASTARD_COMMON + ["zz_verif_trig_test.go", "zz_verif_c09_test.go"], "test": "TestVerifC09",
@@ -13,9 +14,17 @@ ENTRY = {
                 "levels), two source keys with every pair of length-2 lists (on the empty and the full set), and all depth-2 sequences over the "
                 "single-pair + length-2-list alphabet. Oracle for a list request: every valid pair of it takes effect (add) / disappears (delete), "
                 "no other index does, whatever precedes it in the list or the map; the error a request returns is not judged. "
+                "Trigger-position family (where in the stream the primaries fall): every connection set (64) x firing channel (3) x its trigger kind "
+                "(edge, level, auto every NSamples, edge+auto) x one pulse starting at every sample 0..60 of the stream or none x trigger settings "
+                "re-sent before the second block or not, 3 blocks of 30 samples: in every cycle each other channel emits exactly the firing channel's "
+                "primaries (frames, once each, own samples) iff it is connected to it, including the earliest (stream index NPresamples: start of a "
+                "run, after re-sent settings) and the latest triggerable sample; the firing channel's records are checked against the edge/level "
+                "criterion on the ground truth. "
                 "non-trivial = at least one secondary record was emitted",
         "assumptions": ["edits issued directly on the source or through a SourceControl whose request queue is served one request at a time (RPC queueing is C11)",
                         "a frame fired by m connected sources may appear 1..m times (DESIGN 7.5)",
+                        "trigger-position family: one firing channel per execution (the other channels carry ripple only), fixed block length 30, "
+                        "npre 3 / nsamp 6, generic (non-Lancero) source, source level only",
                         "receiver lists of length <= 3, at most two source keys per request; the order in which the real code visits the source keys of a "
                         "request is Go's map order (not enumerated: the set-theoretic result does not depend on it)"],
     },
